@@ -217,6 +217,41 @@ def oracle_special(rng):
         setattr(rec, name, rec[name])
         if not np.array_equal(np.array(rec[name]), vals):
             out.append((f"attribute self-assignment {name}", {"format": fmt, "field": name}, "rec.f = rec.f changed the field"))
+        # the packed record is resized between two assignments (a cached view of the old array would swallow the second one)
+        rec = fresh_record(fmt, rng, n)
+        _ = rec[name]
+        rec.resize(n + 3)
+        rec[name][:] = maxv
+        if not np.array_equal(np.array(rec[name]), np.full(n + 3, maxv)) or not np.array_equal((rec.array[composed] & m) >> lsb, np.full(n + 3, maxv)):
+            out.append((f"assignment after resize {name}", {"format": fmt, "field": name}, f"after resize(), {name}[:] = {maxv} did not reach the record's packed bytes"))
+        rec.resize(2)
+        rec[name] = np.array([0, maxv])
+        if ((rec.array[composed] & m) >> lsb).tolist() != [0, maxv]:
+            out.append((f"assignment after resize {name}", {"format": fmt, "field": name}, "after shrinking, the assignment did not reach the record"))
+        # per-point values through the list-of-names form
+        rec = fresh_record(fmt, rng, n)
+        want = np.array([rng.randrange(maxv + 1) for _ in range(n)])
+        rec[[name]] = want
+        if not np.array_equal(np.array(rec[name]), want):
+            out.append((f"list-of-names assignment {name}", {"format": fmt, "field": name, "values": want.tolist()}, f"rec[[{name!r}]] = values stored {np.array(rec[name]).tolist()}"))
+        rec = fresh_record(fmt, rng, n); before = rec.array.tobytes()
+        bad = want.copy(); bad[n // 2] = maxv + 1
+        try:
+            rec[[name]] = bad
+            out.append((f"list-of-names out-of-range {name}", {"format": fmt, "field": name}, "an out-of-range value in the middle of the array was not refused"))
+        except OverflowError:
+            if rec.array.tobytes() != before:
+                out.append((f"list-of-names out-of-range {name}", {"format": fmt, "field": name}, "record modified although OverflowError was raised"))
+        except Exception as ex:
+            out.append((f"list-of-names out-of-range {name}", {"format": fmt, "field": name}, f"raised {type(ex).__name__}"))
+        # every OTHER sub-field of the format, read by name, keeps its values (two fields sharing a bit would fail here)
+        rec = fresh_record(fmt, rng, 64)
+        others = {o[1]: np.array(rec[o[1]]).copy() for o in sub_fields() if o[0] == fmt and o[1] != name}
+        rec[name][:] = np.array([rng.randrange(maxv + 1) for _ in range(64)])
+        for on, ov in others.items():
+            if not np.array_equal(np.array(rec[on]), ov):
+                out.append((f"sibling {on} changed by {name}", {"format": fmt, "field": name, "sibling": on}, f"assigning {name} changed the values of {on}"))
+                break
         # out-of-range value with a selection that addresses nothing
         for key, kd in ((np.zeros(n, dtype=bool), "mask matching nothing"), (slice(0, 0), "empty slice")):
             for v in (maxv + 1, -1):
